@@ -357,7 +357,7 @@ func init() {
 		Control{Name: "neg-key-finer-than-needed", Props: []string{"C11"}, File: "inlines.go", Negative: true,
 			Old: "const openersBottomCount = 14", New: "const openersBottomCount = 28",
 			Edits: [][2]string{{"\tcase inlineDelimiterLink:\n\t\treturn 12\n\tcase inlineDelimiterImage:\n\t\treturn 13", "\tcase inlineDelimiterLink:\n\t\treturn 12 + int(elem.flags&activeFlag)*14\n\tcase inlineDelimiterImage:\n\t\treturn 13"}},
-			Why: "a key that separates more than the predicate distinguishes only costs array slots"},
+			Why:   "a key that separates more than the predicate distinguishes only costs array slots"},
 		Control{Name: "neg-match-predicate-early-returns", Props: []string{"C11"}, File: "inlines.go", Negative: true,
 			Old: "\treturn (open.typ == inlineDelimiterStar || open.typ == inlineDelimiterUnderscore) &&\n\t\topen.typ == close.typ &&\n\t\topen.flags&openerFlag != 0 &&\n\t\tclose.flags&closerFlag != 0 &&",
 			New: "\tif open.typ != inlineDelimiterStar && open.typ != inlineDelimiterUnderscore || open.typ != close.typ {\n\t\treturn false\n\t}\n\tif open.flags&openerFlag == 0 || close.flags&closerFlag == 0 {\n\t\treturn false\n\t}\n\treturn true &&",
